@@ -8,7 +8,7 @@ from props import answers, rel
 
 THEOREMS = ["InfOCF.C12_key_formula_invariance_part", "InfOCF.C12_key_formula_invariance_P", "InfOCF.C12_key_formula_invariance_Z",
             "InfOCF.C12_key_formula_invariance_W", "InfOCF.C12_key_formula_invariance_Lex", "InfOCF.C12_query_equiv",
-            "InfOCF.C12_order_invariance", "InfOCF.C12_order_invariance_P", "InfOCF.C12_order_invariance_part", "InfOCF.C12_atom_renaming", "InfOCF.C12_atom_renaming_part", "InfOCF.C12_signature_extension", "InfOCF.pull_transport", "InfOCF.tolPart_perm", "InfOCF.tolPart_congr", "InfOCF.tolPartExt_congr", "InfOCF.wless_congr", "InfOCF.lexVec_congr", "InfOCF.zrk_congr"]
+            "InfOCF.C12_order_invariance", "InfOCF.C12_order_invariance_P", "InfOCF.C12_order_invariance_part", "InfOCF.C12_atom_renaming", "InfOCF.C12_c_invariance", "InfOCF.C12_c_key_formula_invariance", "InfOCF.C12_c_atom_renaming", "InfOCF.C12_c_order_invariance", "InfOCF.specC_iff_pos", "InfOCF.C12_atom_renaming_part", "InfOCF.C12_signature_extension", "InfOCF.pull_transport", "InfOCF.tolPart_perm", "InfOCF.tolPart_congr", "InfOCF.tolPartExt_congr", "InfOCF.wless_congr", "InfOCF.lexVec_congr", "InfOCF.zrk_congr"]
 RULE = ("random and tie-rich bases (both modes) x 5 queries; each base is presented in 7 ways: parser-style keys 1..n (reference), 0-based keys, "
         "sparse keys, permuted keys, reversed/shuffled conditional order, atoms renamed + signature reordered and extended by unused atoms, "
         "every formula (base and queries) rewritten to an equivalent one (double negation, De Morgan, distribution, constant absorption, "
@@ -16,8 +16,9 @@ RULE = ("random and tie-rich bases (both modes) x 5 queries; each base is presen
         "non-trivial = contingent query on a base with >= 2 conditionals; distinct by (base, query, presentation)")
 ASSUMPTIONS = ["the Lean theorems cover re-keying, replacement of formulas by equivalent ones (position-wise same verification/falsification sets), "
                "permutation of the conditional list, renaming of the atoms by any injection of signatures and extension of the signature by unused atoms "
-               "(C12_atom_renaming, C12_signature_extension) for p-entailment, System Z, System W and lexicographic inference in both modes; "
-               "c-inference is covered by the correspondence only"]
+               "(C12_atom_renaming, C12_signature_extension) for p-entailment, System Z, System W and lexicographic inference in both modes, and "
+               "for skeptical c-inference at the level of its specification specC (C12_c_invariance, C12_c_order_invariance; impact assignments "
+               "per conditional = impact vectors by position when keys are distinct, specC_iff_pos); specC is tied to the code by C05"]
 
 CFG_STRICT = rel.STRICT_CFG
 CFG_EXT = rel.EXT_CFG
